@@ -337,6 +337,33 @@ func genC08(t *rapid.T, maxVisits int) c08Case {
 		if c.UseHistory && len(ps) > 0 && v.LastMove != nil && rapid.Bool().Draw(t, "counter") {
 			c.Counters = append(c.Counters, counterEntry{v.LastMove.From, v.LastMove.To, ps[rapid.IntRange(0, len(ps)-1).Draw(t, "cm")]})
 		}
+		// history counters of moves that really occur in the visited position (a random (from,to) pair practically
+		// never is one): magnitudes around every threshold of the sort-value arithmetic (count/100 added to the
+		// move's sort value, which competes with the killer values and with the PV move's maximum)
+		if c.UseHistory && len(ps) > 0 {
+			side := 0
+			if !p.White {
+				side = 1
+			}
+			for k := rapid.IntRange(0, 3).Draw(t, "moveHist"); k > 0; k-- {
+				m := ps[rapid.IntRange(0, len(ps)-1).Draw(t, "hm")]
+				if v.Pv != nil && rapid.Bool().Draw(t, "pvMate") {
+					// a move of the same stage as the PV move: same moving piece kind and same capture class
+					var mates []rc.Move
+					for _, q := range ps {
+						if (q.From != v.Pv.From || q.To != v.Pv.To) && p.B[q.From] == p.B[v.Pv.From] && (p.B[q.To] != 0) == (p.B[v.Pv.To] != 0) {
+							mates = append(mates, q)
+						}
+					}
+					if len(mates) > 0 {
+						m = mates[rapid.IntRange(0, len(mates)-1).Draw(t, "mate")]
+					}
+				}
+				cnt := rapid.SampledFrom([]int64{99, 100, 40_000, 400_000, 1_000_000, 1_500_000, 2_000_000, 2_500_000, 3_000_000, 3_270_000, 3_500_000, 4_000_000, 4_200_000, 6_553_600, 1 << 40}).Draw(t, "magnitude")
+				cnt += rapid.Int64Range(0, 99_999).Draw(t, "jitter")
+				c.Hist = append(c.Hist, histEntry{side, m.From, m.To, cnt})
+			}
+		}
 		c.Visits = append(c.Visits, v)
 	}
 	return c
